@@ -283,20 +283,35 @@ def w_weights(cfg, tier):
     Q, base = arbitrary_distribution(n)
 
     class Model(PauliErrorModel):
+        """hands out the SAME arrays on every call, as the real lru_cached probability_distribution does"""
+        tables = None
+
         def probability_distribution(self, code_, error_rate):
-            return tuple(as_sa([SymReal(t) for t in Q[s]]) for s in 'IXYZ')
+            if self.tables is None:
+                self.tables = tuple(as_sa([SymReal(t) for t in Q[s]]) for s in 'IXYZ')
+            return self.tables
     eps = 1e-20
     eng = Engine(name=cfg)
     with eng:
-        ps = eng.explore(lambda: Model(1 / 3, 1 / 3, 1 / 3).get_weights(code, 0.1))
+        def fn():
+            mdl = Model(1 / 3, 1 / 3, 1 / 3)
+            first = mdl.get_weights(code, 0.1)
+            second = mdl.get_weights(code, 0.1)       # a second decoder built from the same objects
+            after = [[term_of(c, 'real') for c in t.cells()] for t in mdl.tables]
+            return first, second, after
+        ps = eng.explore(fn)
     col.absorb(eng)
-    bad = []
+    bad, bad_tab = [], []
     epsr = z3.RealVal(str(Fraction(eps)))
+    runs = []
     for p in ps:
         if p.exc is not None:
             col.record('C07/get_weights/no-exception', 'sat', 0, True, None, str(p.exc))
             continue
-        wx, wz = p.value
+        first, second, after = p.value
+        bad_tab.append(z3_and(p.pc + [z3_or([a_ != q_ for row, s_ in zip(after, 'IXYZ') for a_, q_ in zip(row, Q[s_])])]))
+        runs += [(p, first), (p, second)]
+    for p, (wx, wz) in runs:
         d = [z3.BoolVal(np.asarray(wx).shape != (n,) or np.asarray(wz).shape != (n,))]
         for i in range(n):
             for cell, a, b in ((wx[i], 'X', 'Y'), (wz[i], 'Z', 'Y')):
@@ -323,8 +338,12 @@ def w_weights(cfg, tier):
     dom = base + [Q['X'][i] + Q['Y'][i] < 1 for i in range(n)] + [Q['Z'][i] + Q['Y'][i] < 1 for i in range(n)]
     col.prove('C07/get_weights/are-log-likelihood-ratios-of-the-flip-marginals', dom, z3_or(bad),
               lambda m: dict(model=str(m)[:300]),
-              'weights_x[i] = -ln((qX+qY+eps)/(1-(qX+qY)+eps)), weights_z[i] likewise with qZ+qY; ln uninterpreted',
+              'weights_x[i] = -ln((qX+qY+eps)/(1-(qX+qY)+eps)), weights_z[i] likewise with qZ+qY; ln uninterpreted; '
+              'the first AND a second call on the same model / code / rate',
               timeout_ms=60000)
+    col.prove('C07/get_weights/distribution-tables-not-altered', dom, z3_or(bad_tab), lambda m: dict(model=str(m)[:300]),
+              'the arrays handed out by probability_distribution (shared with sampling and the other decoders) hold '
+              'the same values after two get_weights calls')
     return col.result()
 
 
